@@ -143,8 +143,16 @@ def conc(x):
         if z3.is_false(x):
             return False
         if z3.is_string_value(x):
-            return x.as_string()
+            return z3_unescape(x.as_string())
     return NotConcrete
+
+
+import re as _re
+
+
+def z3_unescape(t):
+    """z3 prints non-printable characters as \\u{hex}"""
+    return _re.sub(r"\\u\{([0-9a-fA-F]+)\}", lambda m: chr(int(m.group(1), 16)), t)
 
 
 class _NC:
